@@ -587,3 +587,54 @@ def r8(R):
             where = [g.nodes[i] for i in v.path if forgets(g.nodes[i])]
             R.violation(where[-1] if where else v.node, v.message, g, v.path)
     R.require(n >= 4, 'commit-phase methods not found')
+
+
+# ------------------------------------------------------------------ C11.R9
+@rule('C11.R9', 'a record the import writes for a NEW object is written '
+      'only after the object was recorded as created by this transaction '
+      '(abort disowns what is recorded, nothing else)', min_instances=1)
+def r9(R):
+    cls = R.prog.cls('ZODB.ExportImport.ExportImport')
+    f = R.method(cls, '_importDuringCommit')
+    g, b, F = R.cfg(f, cls, max_depth=0)
+    seen = [0]
+
+    def edge(node, st, lab, tgt):
+        if node.kind == 'loophead':
+            return frozenset()
+        if lab in ('e', 'eb'):
+            return st
+        for op in F.ops(node):
+            if op.kind == 'setitem' and op.path and op.path[-1] in (
+                    '_creating', 'creating', '_added') and isinstance(
+                        op.ast, ast.Subscript) and isinstance(
+                            op.ast.slice, ast.Name):
+                st = st | {op.ast.slice.id}
+            # re-binding the name: another oid
+            if op.kind == 'store' and op.path and op.path[0] == '%local' \
+                    and op.path[1] in st:
+                st = st - {op.path[1]}
+        return st
+
+    def at(node, st):
+        for op in F.ops(node):
+            if op.kind == 'call' and op.path and op.path[-1] in (
+                    'store', 'storeBlob') and '_storage' in op.path and \
+                    op.ast.args and isinstance(op.ast.args[0], ast.Name):
+                seen[0] += 1
+                if op.ast.args[0].id not in st:
+                    return Violation(
+                        'the import stores a record under the new id `%s` '
+                        'without having recorded that id as created by the '
+                        'transaction: after an abort the object importFile() '
+                        'returned keeps its id and connection, and linking '
+                        'it later commits a dangling reference' %
+                        op.ast.args[0].id)
+        return st
+
+    vs, stats = explore(g, frozenset(), at=at, edge=edge)
+    R.count(stats)
+    R.instance('ExportImport._importDuringCommit', stores=seen[0])
+    R.require(seen[0] or vs, 'the import no longer stores records')
+    for v in vs:
+        R.violation(v.node, v.message, g, v.path)
